@@ -150,6 +150,7 @@ type Pool struct {
 	Mode   string // "plain" or "chroot"
 	Race   bool
 	Dir    string   // scratch dir (created); for chroot the worker confines itself to it
+	Prefix []string // command in front of the worker binary (e.g. taskset -c 0: a process confined to one CPU)
 	Env    []string // further environment of the worker process (e.g. GOMAXPROCS=1: a process that starts on one CPU)
 	cmd    *exec.Cmd
 	stdin  io.WriteCloser
@@ -188,6 +189,9 @@ func (p *Pool) start() error {
 		return err
 	}
 	cmd := exec.Command(bin, "-test.run=^$")
+	if len(p.Prefix) > 0 {
+		cmd = exec.Command(p.Prefix[0], append(append([]string{}, p.Prefix[1:]...), bin, "-test.run=^$")...)
+	}
 	mode := p.Mode
 	if mode == "" {
 		mode = "plain"
